@@ -11,3 +11,4 @@ import ParsleyVerif.Props.C01
 #print axioms PV.c01_derives_ref
 #print axioms PV.c01_derives_seqOf
 #print axioms PV.c01_facts
+#print axioms PV.c01_translated_conditions
